@@ -48,6 +48,8 @@ type LoopSpec struct {
 type Split struct {
 	Var    string
 	Lo, Hi int
+	Vals   []int // all values (union of the ranges)
+	For    []string // clause labels the instances are restricted to (empty: everything)
 }
 
 type SpecParam struct {
@@ -56,6 +58,7 @@ type SpecParam struct {
 }
 
 type SpecFunc struct {
+	Opaque bool
 	Name   string
 	Params []SpecParam
 	Result string
@@ -103,6 +106,7 @@ type Contract struct {
 	Ghosts     []GhostVar
 	GhostUpd   []GhostUpdate
 	Uses       []string
+	Reveal     []string
 	// lemma
 	IsLemma bool
 	Params  []SpecParam
@@ -115,6 +119,7 @@ type ContractSet struct {
 	Contracts map[string]*Contract // by pkg + "." + key
 	Specs     map[string]*SpecFunc // by name (global namespace; pkg recorded)
 	Grounds   map[string]bool      // "pkg.global"
+	Frozen    map[string]bool      // "pkg.global": never written outside package initialisation
 	Order     []string
 	Errors    []string
 }
@@ -123,7 +128,7 @@ var clauseRe = regexp.MustCompile(`^(\w+)(?:\[(\d+)\])?\s*(.*)$`)
 var labelRe = regexp.MustCompile(`^([A-Za-z][A-Za-z0-9_\-]*):\s+(.*)$`)
 
 func loadContracts(root string) *ContractSet {
-	cs := &ContractSet{Contracts: map[string]*Contract{}, Specs: map[string]*SpecFunc{}, Grounds: map[string]bool{}}
+	cs := &ContractSet{Contracts: map[string]*Contract{}, Specs: map[string]*SpecFunc{}, Grounds: map[string]bool{}, Frozen: map[string]bool{}}
 	files, _ := filepath.Glob(filepath.Join(root, "internal", "*", "zz_contracts_verif*.go"))
 	for _, f := range files {
 		cs.parseFile(f)
@@ -201,6 +206,11 @@ func (cs *ContractSet) parseFile(path string) {
 			cs.add(cur, loc)
 			continue
 		case "spec":
+			opaque := false
+			if strings.HasPrefix(rest, "opaque ") {
+				opaque = true
+				rest = strings.TrimSpace(rest[7:])
+			}
 			name, params, res, body, err := parseSig(rest)
 			if err != nil {
 				cs.errf("%s: %v", loc, err)
@@ -209,14 +219,17 @@ func (cs *ContractSet) parseFile(path string) {
 			if _, dup := cs.Specs[name]; dup {
 				cs.errf("%s: duplicate spec %s", loc, name)
 			}
-			cs.Specs[name] = &SpecFunc{Name: name, Params: params, Result: res, Body: mk(body), Pkg: pkg}
+			cs.Specs[name] = &SpecFunc{Opaque: opaque, Name: name, Params: params, Result: res, Body: mk(body), Pkg: pkg}
 			continue
-		case "ground":
+		case "ground", "frozen":
 			for _, g := range strings.Fields(strings.ReplaceAll(rest, ",", " ")) {
 				if !strings.Contains(g, ".") {
 					g = pkg + "." + g
 				}
-				cs.Grounds[g] = true
+				if kw == "ground" {
+					cs.Grounds[g] = true
+				}
+				cs.Frozen[g] = true
 			}
 			continue
 		}
@@ -254,14 +267,34 @@ func (cs *ContractSet) parseFile(path string) {
 			n, _ := strconv.Atoi(rest)
 			loop().Unroll = n
 		case "split":
-			sm := regexp.MustCompile(`^(\w+)\s+in\s+(-?\d+)\.\.(-?\d+)$`).FindStringSubmatch(rest)
+			var forL []string
+			if i := strings.Index(rest, " for "); i >= 0 {
+				for _, l := range strings.Split(rest[i+5:], ",") {
+					forL = append(forL, strings.TrimSpace(l))
+				}
+				rest = strings.TrimSpace(rest[:i])
+			}
+			sm := regexp.MustCompile(`^(.+?)\s+in\s+([-\d.,\s]+)$`).FindStringSubmatch(rest)
 			if sm == nil {
 				cs.errf("%s: bad split %q", loc, rest)
 				continue
 			}
-			lo, _ := strconv.Atoi(sm[2])
-			hi, _ := strconv.Atoi(sm[3])
-			cur.Splits = append(cur.Splits, Split{sm[1], lo, hi})
+			sp := Split{Var: strings.TrimSpace(sm[1]), For: forL}
+			for _, rg := range strings.Split(sm[2], ",") {
+				rg = strings.TrimSpace(rg)
+				lo, hi := 0, 0
+				if i := strings.Index(rg, ".."); i >= 0 {
+					lo, _ = strconv.Atoi(rg[:i])
+					hi, _ = strconv.Atoi(rg[i+2:])
+				} else {
+					lo, _ = strconv.Atoi(rg)
+					hi = lo
+				}
+				for k := lo; k <= hi; k++ {
+					sp.Vals = append(sp.Vals, k)
+				}
+			}
+			cur.Splits = append(cur.Splits, sp)
 		case "inline":
 			cur.Inline = true
 		case "trusted":
@@ -303,8 +336,13 @@ func (cs *ContractSet) parseFile(path string) {
 			cur.GhostUpd = append(cur.GhostUpd, GhostUpdate{um[1], um[2], mk(um[3])})
 		case "do":
 			cur.Body = append(cur.Body, mk(rest))
+		case "nosplit":
 		case "use":
 			cur.Uses = append(cur.Uses, rest)
+		case "reveal":
+			for _, r := range strings.Split(rest, ",") {
+				cur.Reveal = append(cur.Reveal, strings.TrimSpace(r))
+			}
 		default:
 			cs.errf("%s: unknown clause %q", loc, kw)
 		}
